@@ -850,14 +850,6 @@ impl<K: EnrKey> Enr<K> {
             removed.push(new_enr.content.remove(key.as_ref()));
         }
 
-        // add the new public key
-        let public_key = enr_key.public();
-        let mut pubkey = BytesMut::new();
-        public_key.encode().as_ref().encode(&mut pubkey);
-        new_enr
-            .content
-            .insert(public_key.enr_key(), pubkey.freeze());
-
         let mut inserted = Vec::new();
         for (key, value) in insert_key_values {
             // currently only support "v4" identity schemes
@@ -867,13 +859,20 @@ impl<K: EnrKey> Enr<K> {
             let mut out = BytesMut::new();
             value.encode(&mut out);
             let value = out.freeze();
-            // Prevent inserting invalid RLP integers
-            if is_keyof_u16(key.as_ref()) {
-                u16::decode(&mut value.as_ref())?;
-            }
+            // Prevent inserting ill-typed values for the keys reserved by the specification
+            // (invalid RLP integers, addresses of the wrong length)
+            check_spec_reserved_keys(key.as_ref(), &value)?;
 
             inserted.push(new_enr.content.insert(key.as_ref().to_vec(), value));
         }
+
+        // add the new public key, after the requested pairs so that they cannot replace it
+        let public_key = enr_key.public();
+        let mut pubkey = BytesMut::new();
+        public_key.encode().as_ref().encode(&mut pubkey);
+        new_enr
+            .content
+            .insert(public_key.enr_key(), pubkey.freeze());
 
         // increment the sequence number
         new_enr.seq = new_enr
@@ -1242,10 +1241,6 @@ pub(crate) fn digest(b: &[u8]) -> [u8; 32] {
     let mut output = [0_u8; 32];
     output.copy_from_slice(&Keccak256::digest(b));
     output
-}
-
-const fn is_keyof_u16(key: &[u8]) -> bool {
-    matches!(key, TCP_ENR_KEY | TCP6_ENR_KEY | UDP_ENR_KEY | UDP6_ENR_KEY)
 }
 
 fn check_spec_reserved_keys(key: &[u8], mut value: &[u8]) -> Result<(), Error> {
